@@ -82,6 +82,9 @@ func parseUrlPath(pathStr string, m meta.Definition) ([]*Path, error) {
 			if !isList {
 				return nil, fmt.Errorf("%w. %s is not a list and cannot have a key", fc.BadRequestError, ident)
 			}
+			if len(keyStrs) != len(list.KeyMeta()) {
+				return nil, fmt.Errorf("%w. %s has %d keys, %d given", fc.BadRequestError, ident, len(list.KeyMeta()), len(keyStrs))
+			}
 			if seg.Key, err = NewValuesByString(list.KeyMeta(), keyStrs...); err != nil {
 				return nil, err
 			}
